@@ -3,6 +3,7 @@ import AmVerif.Lemmas.TopoGraph
 import AmVerif.Lemmas.Converge
 import AmVerif.Lemmas.Settle
 import AmVerif.Lemmas.StaticMode
+import AmVerif.Lemmas.HistMore
 import AmVerif.Model.History
 import AmVerif.Lemmas.World
 import AmVerif.Gen.TabLock
@@ -43,6 +44,12 @@ one environment everything is settled after every reloader step (`C05_static_his
 `C05_history_settled_partial`: `C05_static_history_extends`). The pass is the same `run_update`: same named
 hypotheses, on the steps of the pass the entry point runs; both stay necessary in static mode
 (`C05_static_statement_false_rewire`, `C05_static_statement_false_miss`).
+**Histories with `clear` and `load_owned`** (`Lemmas/HistMore.lean`): `C05_history_with_clear_partial` extends
+`C05_static_history_partial` with `clear` steps (no hypothesis: the registrations still in the channel become
+stale, and the last registration of a key wins — `C05_last_registration_wins`),
+`C05_history_with_load_owned_partial` extends it further with `load_owned` from the API (a registration for a
+key that is not cached; the assets cached on the way are registered as by a load). `load_owned` nested in a
+loader is outside `Settled` by definition (`C05_nested_load_owned_never_settled`).
 -/
 namespace AmVerif.Props.C05
 open AmVerif.Gen AmVerif.Model AmVerif.Lemmas.TopoGraph AmVerif.Lemmas.Topo
@@ -686,10 +693,11 @@ cached is settled, the index is exact and the channel is drained. Loads need not
 `hot_reload`s. `LoadHist` also admits `get_or_insert` (a static entry; same two no-fill hypotheses), the
 operations that leave the cache as it is (`get_cached`, `contains`), and `remove` / `take` of a key on which
 nothing registered and cached (and no registration still in the channel) depends (`NoDependentOn`;
-necessary: `C05_remove_breaks_settled`). Not covered: `clear` (its `Clear` message and the registrations
-still in the channel for entries that are gone need a weaker notion of good registration),
-`load_owned` (registers a key it does not cache; its loader is re-run, not read back),
-`notify` / `enhance` / edits (that is `C05_hot_reload_converges_partial`). -/
+necessary: `C05_remove_breaks_settled`). Not covered HERE: `clear` (its `Clear` message and the registrations
+still in the channel for entries that are gone need a weaker notion of good registration:
+`C05_history_with_clear_partial`), `load_owned` (registers a key it does not cache:
+`C05_history_with_load_owned_partial`), `notify` / `enhance` (`C05_static_history_partial`), edits
+(`C05_hot_reload_converges_partial`). -/
 theorem C05_history_settled_partial (env : Env) (hS : env.Steady) (fuel : Nat) (h : List (Env × HOp))
     (hh : LoadHist env fuel h ({}, {})) :
     ∀ h1 h2, h = h1 ++ (env, .hotReload) :: h2 →
@@ -1487,5 +1495,469 @@ theorem C05_static_statement_false_miss :
     rank_of_entries (by decide), rfl, by decide, rfl, rfl, exEnv_unchanged _ _ _ _, fun _ _ => rfl, by decide,
     fun h => absurd (noMiss_check_of h) (by decide), reloadsReturn_of_check (by decide),
     noRewire_of_check (by decide), staleAt_of_check (by decide), by decide, by decide⟩
+
+/-! ## Histories with `clear` (`Lemmas/HistMore.lean`)
+
+After `clear` the cache is empty, the reloader's graph keeps its (typed) nodes, and the registrations
+that were still in the channel name entries that are gone: the invariant `Pending` of the history
+theorems above ("every registration in the channel is `MsgGood`: its key IS cached …") is false. It is
+replaced by `PendingC`: the LAST registration of every key in the channel is good IF its key is cached
+(`MsgGoodIf`, `LastGood`). A stale registration cannot break `Settled`: `insertAsset` replaces the
+dependencies of the node, so the last message wins (`settledBut_drainC`) — and a key can only be cached
+again (with a dynamic cell) by a load that misses, which sends a NEW registration after the stale one.
+`clear` itself needs no hypothesis. -/
+
+/-- the conclusion of the history theorems, for every step predicate `P` whose steps keep the invariant
+`SInvC` and whose reloader steps satisfy `PassOK` when they run a pass -/
+theorem C05_history_conclusion {P : HOp → St × RSt → Prop} (env : Env) (hS : env.Steady) (fuel : Nat)
+    (hI : ∀ x op, SInvC env fuel x → P op x → SInvC env fuel (hstep fuel (env, op) x))
+    (hpass : ∀ x op, op.isReloader = true → P op x →
+      op.runsPass x.2 = true → (prePass op x).2.toReload ≠ [] → PassOK env fuel (prePass op x))
+    (h : List (Env × HOp)) (hh : HistP P env fuel h ({}, {})) :
+    ∀ h1 op h2, h = h1 ++ (env, op) :: h2 → op.isReloader = true →
+      Settled env fuel (runH fuel (h1 ++ [(env, op)]) ({}, {})).1 (runH fuel (h1 ++ [(env, op)]) ({}, {})).2.graph ∧
+      GraphOK (runH fuel (h1 ++ [(env, op)]) ({}, {})).2.graph ∧
+      (runH fuel (h1 ++ [(env, op)]) ({}, {})).1.out = [] ∧
+      (runH fuel (h1 ++ [(env, op)]) ({}, {})).2.dead = false ∧
+      ((runH fuel (h1 ++ [(env, op)]) ({}, {})).2.static_ = true →
+        (runH fuel (h1 ++ [(env, op)]) ({}, {})).2.toReload = []) ∧
+      (op = .enhance → (runH fuel (h1 ++ [(env, op)]) ({}, {})).2.static_ = true) := by
+  intro h1 op h2 e hop
+  obtain ⟨j1, j2, j3, j4⟩ := (histP_settled hS hI hpass hh (SInvC.init env fuel)).2 h1 op h2 e hop
+  refine ⟨j1, C05_history_keeps_graphOK fuel _ _ graphOK_nil, j2, j3.live, j3.idle, ?_⟩
+  intro eo
+  subst eo
+  rw [runH_append]
+  generalize runH fuel h1 ({}, {}) = x1 at j4
+  obtain ⟨s1, r1⟩ := x1
+  exact enhance_static_after env fuel s1 r1 j4.live
+
+/-- **Histories with `clear`** (partial): `C05_static_history_partial` extended with `.api .clear` steps.
+From the empty cache and an empty reloader, under ONE environment without fault plan; the history is
+any list of API operations, `hot_reload()`s, batches of events and `enhance_hot_reloading`s such that
+every step satisfies `StepOKC` in the state it starts from:
+* `clear`: no hypothesis (registrations may be in the channel, events may be pending, any mode);
+* a load satisfies `LoadOKC` = `CleanLoad`, `NoProbedKeyFilled` and `NoLivePendingKeyFilled` — the third
+  is `NoPendingKeyFilled` asked only of the registrations whose key is cached: implied by it, and the
+  only form that holds after a `clear` (`C05_clear_old_hypothesis_too_strong`); necessary
+  (`C05_load_pending_false_fill`);
+* `get_or_insert`: the same two no-fill hypotheses; `remove` / `take`: `NoDependentOnC` (`NoDependentOn`
+  with the part on the channel asked only of cached keys other than the removed one; necessary:
+  `C05_remove_breaks_settled` — with the channel drained the two coincide, `NoDependentOnC.drained` —,
+  `C05_remove_pending_breaks_settled`); the read-only operations: nothing;
+* reloader steps: `PassOK` as in `C05_static_history_partial`.
+Every `StaticHist` is such a history (`C05_history_with_clear_extends`). Not covered here: `load_owned`
+(`C05_history_with_load_owned_partial`), edits.
+
+Conclusion: the one of `C05_static_history_partial`, after EVERY reloader step. -/
+theorem C05_history_with_clear_partial (env : Env) (hS : env.Steady) (fuel : Nat) (h : List (Env × HOp))
+    (hh : HistP (StepOKC env fuel) env fuel h ({}, {})) :
+    ∀ h1 op h2, h = h1 ++ (env, op) :: h2 → op.isReloader = true →
+      Settled env fuel (runH fuel (h1 ++ [(env, op)]) ({}, {})).1 (runH fuel (h1 ++ [(env, op)]) ({}, {})).2.graph ∧
+      GraphOK (runH fuel (h1 ++ [(env, op)]) ({}, {})).2.graph ∧
+      (runH fuel (h1 ++ [(env, op)]) ({}, {})).1.out = [] ∧
+      (runH fuel (h1 ++ [(env, op)]) ({}, {})).2.dead = false ∧
+      ((runH fuel (h1 ++ [(env, op)]) ({}, {})).2.static_ = true →
+        (runH fuel (h1 ++ [(env, op)]) ({}, {})).2.toReload = []) ∧
+      (op = .enhance → (runH fuel (h1 ++ [(env, op)]) ({}, {})).2.static_ = true) :=
+  C05_history_conclusion env hS fuel (fun _ op hx hok => hx.step hS op hok) (fun _ _ hop hok => hok.pass hop) h hh
+
+/-- `C05_history_with_clear_partial` contains `C05_static_history_partial` (hence `C05_history_settled_partial`) -/
+theorem C05_history_with_clear_extends (env : Env) (fuel : Nat) (h : List (Env × HOp)) (x : St × RSt)
+    (hh : StaticHist env fuel h x) : HistP (StepOKC env fuel) env fuel h x :=
+  hh.toP.mono (fun _ _ => StepOK.toC)
+
+/-- **Last message wins** (the drain lemma behind the theorem): if the last registration of every key
+in the channel is good if its key is cached, and everything registered and cached is settled except
+the keys with a registration in the channel, then after the reloader has taken the channel — stale
+registrations and `Clear`s included — everything registered and cached is settled. -/
+theorem C05_last_registration_wins (env : Env) (hS : env.Steady) (fuel : Nat) (s : St) (r : RSt)
+    (hlast : LastGood env fuel s s.out) (hbut : SettledBut env fuel s r.graph s.out) :
+    Settled env fuel (processMsgs s r).1 (processMsgs s r).2.graph := by
+  rw [processMsgs_eq]
+  exact settled_congr hS (s := s) (fun _ => rfl) (settledBut_drainC s.out r hlast hbut)
+
+/-- `clear` keeps the invariant whatever is in the channel and in the graph, without hypothesis -/
+theorem C05_clear_keeps_invariant (env : Env) (hS : env.Steady) (fuel : Nat) (x : St × RSt) (hx : SInvC env fuel x) :
+    SInvC env fuel (hstep fuel (env, .api .clear) x) ∧
+    (∀ k, (hstep fuel (env, .api .clear) x).1.lookup k = none) ∧
+    (hstep fuel (env, .api .clear) x).2 = x.2 ∧
+    (hstep fuel (env, .api .clear) x).1.out = if env.hasReloader then x.1.out ++ [.clear] else x.1.out :=
+  ⟨hx.step hS _ StepOKC.clear, fun k => step_clear_lookup env fuel x.1 k, rfl, step_clear_out env fuel x.1⟩
+
+/-! ### Non-vacuity -/
+
+/-- `load b` (loads `e`), `clear` — the two registrations and the `Clear` are in the channel, nothing
+is cached —, `load b` again, `hot_reload()` -/
+def exClearHistory : List (Env × HOp) :=
+  [(exEnv [1, 0] [10], .api (.load kb)), (exEnv [1, 0] [10], .api .clear),
+   (exEnv [1, 0] [10], .api (.load kb)), (exEnv [1, 0] [10], .hotReload)]
+
+theorem exClearHistory_ok : HistP (StepOKC (exEnv [1, 0] [10]) 10) (exEnv [1, 0] [10]) 10 exClearHistory ({}, {}) :=
+  .cons _ _ _ (StepOKC.load (loadOKC_of_check (by decide)))
+    (.cons _ _ _ StepOKC.clear
+      (.cons _ _ _ (StepOKC.load (loadOKC_of_check (by decide)))
+        (.cons _ _ _ (StepOK.of_idle rfl (by decide)).toC (.nil _))))
+
+/-- **Non-vacuity** of `C05_history_with_clear_partial`, the channel NOT drained before the `clear` -/
+example :
+    Settled (exEnv [1, 0] [10]) 10 (runH 10 exClearHistory ({}, {})).1 (runH 10 exClearHistory ({}, {})).2.graph ∧
+    (runH 10 exClearHistory ({}, {})).1.out = [] :=
+  have h := C05_history_with_clear_partial (exEnv [1, 0] [10]) (exEnv_steady _ _) 10 exClearHistory exClearHistory_ok
+    [(exEnv [1, 0] [10], .api (.load kb)), (exEnv [1, 0] [10], .api .clear), (exEnv [1, 0] [10], .api (.load kb))]
+    .hotReload [] rfl rfl
+  ⟨h.1, h.2.2.1⟩
+
+/-- what happens in that history: after the `clear` nothing is cached and three messages are in the
+channel; before the `hot_reload()` there are five (two stale registrations, `Clear`, two new ones); at
+the end `e` and `b` are cached again (new entries) and registered. -/
+example :
+    (runH 10 (exClearHistory.take 2) ({}, {})).1.map = [] ∧
+    (runH 10 (exClearHistory.take 2) ({}, {})).1.out =
+      [.addAsset ke [.file "e" "s"], .addAsset kb [.file "b" "s", .asset ke], .clear] ∧
+    (runH 10 (exClearHistory.take 3) ({}, {})).1.out.length = 5 ∧
+    (runH 10 exClearHistory ({}, {})).1.lookup kb = some ⟨.int 11, true, 0, false, 3⟩ ∧
+    settledB (exEnv [1, 0] [10]) 10 (runH 10 exClearHistory ({}, {})).1 (runH 10 exClearHistory ({}, {})).2.graph = true := by
+  decide
+
+/-- `load b` (loads `e`), the switch to static mode, `clear`, `load e`, a notification for `e.s`: the pass of
+the notification is sorted from a graph that still has the typed node of `b` — an asset that is gone -/
+def exClearStaticHistory : List (Env × HOp) :=
+  [(exEnv [1, 0] [10], .api (.load kb)), (exEnv [1, 0] [10], .enhance), (exEnv [1, 0] [10], .api .clear),
+   (exEnv [1, 0] [10], .api (.load ke)), (exEnv [1, 0] [10], .notify [.file "e" "s"])]
+
+theorem exClearStaticHistory_ok :
+    HistP (StepOKC (exEnv [1, 0] [10]) 10) (exEnv [1, 0] [10]) 10 exClearStaticHistory ({}, {}) :=
+  .cons _ _ _ (StepOKC.load (loadOKC_of_check (by decide)))
+    (.cons _ _ _ (StepOK.of_idle rfl (by decide)).toC
+      (.cons _ _ _ StepOKC.clear
+        (.cons _ _ _ (StepOKC.load (loadOKC_of_check (by decide)))
+          (.cons _ _ _ (StepOK.of_pass rfl
+            (PassOK.of_checks exRank2 (by decide) (by decide) (by decide) (by decide) (by decide))).toC (.nil _)))))
+
+/-- **Non-vacuity** with a pass after the `clear` (static mode): the reload list of the notification is `e`, `b`
+— `b` is registered but not cached any more, `reload` skips it —, and everything is settled when
+`handle_events` returns; the `Clear` and the registration of `e` were taken by that step. -/
+example :
+    Settled (exEnv [1, 0] [10]) 10 (runH 10 exClearStaticHistory ({}, {})).1 (runH 10 exClearStaticHistory ({}, {})).2.graph ∧
+    (runH 10 (exClearStaticHistory.take 4) ({}, {})).1.out = [.clear, .addAsset ke [.file "e" "s"]] ∧
+    (updateSteps (exEnv [1, 0] [10]) 10
+      (prePass (.notify [.file "e" "s"]) (runH 10 (exClearStaticHistory.take 4) ({}, {}))).1
+      (prePass (.notify [.file "e" "s"]) (runH 10 (exClearStaticHistory.take 4) ({}, {}))).2).map (·.key) = [ke, kb] ∧
+    (runH 10 exClearStaticHistory ({}, {})).1.lookup kb = none ∧
+    ((runH 10 exClearStaticHistory ({}, {})).2.graph.get (.asset kb)).map (·.typed) = some true ∧
+    (runH 10 exClearStaticHistory ({}, {})).1.lookup ke = some ⟨.int 10, true, 1, true, 2⟩ :=
+  have h := C05_history_with_clear_partial (exEnv [1, 0] [10]) (exEnv_steady _ _) 10 exClearStaticHistory
+    exClearStaticHistory_ok
+    [(exEnv [1, 0] [10], .api (.load kb)), (exEnv [1, 0] [10], .enhance), (exEnv [1, 0] [10], .api .clear),
+     (exEnv [1, 0] [10], .api (.load ke))] (.notify [.file "e" "s"]) [] rfl rfl
+  ⟨h.1, by decide, by decide, by decide, by decide, by decide⟩
+
+/-- **The hypothesis of the earlier history theorems is too strong after a `clear`**: in that history the
+second `load b` violates `NoPendingKeyFilled` (it fills `e`, which the STALE registration of `b` lists
+while `e` is absent), hence `LoadOK`; it satisfies `LoadOKC`. -/
+theorem C05_clear_old_hypothesis_too_strong :
+    ¬ LoadOK (exEnv [1, 0] [10]) 10 (runH 10 (exClearHistory.take 2) ({}, {})).1
+        (runH 10 (exClearHistory.take 2) ({}, {})).2 kb ∧
+    LoadOKC (exEnv [1, 0] [10]) 10 (runH 10 (exClearHistory.take 2) ({}, {})).1
+        (runH 10 (exClearHistory.take 2) ({}, {})).2 kb :=
+  ⟨fun h => absurd (noPendingKeyFilled_check_of h.noFillPending) (by decide), loadOKC_of_check (by decide)⟩
+
+/-- loaders whose dependency set depends on the cache: `x` returns `0`; `r` probes `x` with `get_cached`:
+absent → `1`; present → reads `f.s` and returns `2`; `w` loads `x` and returns `3`; `o` calls `load_owned x`
+and returns `4` -/
+def lwProg (id : String) : Prog :=
+  if id = "x" then .ret (.int 0)
+  else if id = "r" then .getCached ⟨0, "x"⟩ fun r =>
+    match r with
+    | none => .ret (.int 1)
+    | some _ => .read "f" "s" fun _ => .ret (.int 2)
+  else if id = "w" then .load ⟨0, "x"⟩ fun _ => .ret (.int 3)
+  else if id = "o" then .loadOwned ⟨0, "x"⟩ fun _ => .ret (.int 4)
+  else .panic
+
+def lwEnv : Env :=
+  { read := fun _ id _ => .error ⟨true, "NotFound", id⟩
+    readDir := fun _ _ => .ok []
+    types := fun _ => { hot := true, prog := lwProg }
+    hasReloader := true }
+
+theorem lwEnv_steady : lwEnv.Steady := ⟨fun _ _ _ _ => rfl, fun _ _ _ => rfl, fun _ _ => rfl⟩
+
+def kx : Key := ⟨0, "x"⟩
+def kr : Key := ⟨0, "r"⟩
+
+/-- `load x`, `load r` (registered with `{x, f.s}`, value `2`), `clear`, `load r` (registered with `{x}`,
+value `1`), `hot_reload()`: two DIFFERENT registrations of `r` are in the channel when it is drained -/
+def lwHistory : List (Env × HOp) :=
+  [(lwEnv, .api (.load kx)), (lwEnv, .api (.load kr)), (lwEnv, .api .clear), (lwEnv, .api (.load kr)),
+   (lwEnv, .hotReload)]
+
+theorem lwHistory_ok : HistP (StepOKC lwEnv 10) lwEnv 10 lwHistory ({}, {}) :=
+  .cons _ _ _ (StepOKC.load (loadOKC_of_check (by decide)))
+    (.cons _ _ _ (StepOKC.load (loadOKC_of_check (by decide)))
+      (.cons _ _ _ StepOKC.clear
+        (.cons _ _ _ (StepOKC.load (loadOKC_of_check (by decide)))
+          (.cons _ _ _ (StepOK.of_idle rfl (by decide)).toC (.nil _)))))
+
+/-- **A stale registration with other dependencies, still in the channel, is harmless**: `load r; clear;
+load r` with different dependency sets between the two registrations, both drained by the same
+`hot_reload()` — the node of `r` ends with the dependencies of the LAST one, and `r` is settled. -/
+example :
+    Settled lwEnv 10 (runH 10 lwHistory ({}, {})).1 (runH 10 lwHistory ({}, {})).2.graph ∧
+    (runH 10 (lwHistory.take 4) ({}, {})).1.out =
+      [.addAsset kx [], .addAsset kr [.asset kx, .file "f" "s"], .clear, .addAsset kr [.asset kx]] ∧
+    ((runH 10 lwHistory ({}, {})).2.graph.get (.asset kr)).map (·.deps) = some [.asset kx] ∧
+    (runH 10 lwHistory ({}, {})).1.lookup kr = some ⟨.int 1, true, 0, false, 2⟩ :=
+  have h := C05_history_with_clear_partial lwEnv lwEnv_steady 10 lwHistory lwHistory_ok
+    [(lwEnv, .api (.load kx)), (lwEnv, .api (.load kr)), (lwEnv, .api .clear), (lwEnv, .api (.load kr))]
+    .hotReload [] rfl rfl
+  ⟨h.1, by decide, by decide, by decide⟩
+
+/-! ### The weakened hypotheses are still necessary -/
+
+/-- **`NoLivePendingKeyFilled` is necessary.** `load q` (it probes `x`, finds nothing, returns `1`); its
+registration is still in the channel and `q` is cached. Then `load x`: a clean load, and nothing
+registered is concerned (`NoProbedKeyFilled` holds: the graph is empty) — but it fills the key the
+pending registration of the cached `q` lists. After `hot_reload()` `q` is registered and holds `1`
+although re-evaluating its loader returns `2`. -/
+theorem C05_load_pending_false_fill :
+    ∃ (env : Env) (fuel : Nat) (x : St × RSt) (key : Key),
+      env.Steady ∧ SInvC env fuel x ∧ CleanLoad env fuel x.1 key ∧
+      NoProbedKeyFilled x.1 (step env fuel x.1 (.load key)).1 x.2.graph ∧
+      ¬ NoLivePendingKeyFilled x.1 (step env fuel x.1 (.load key)).1 ∧
+      StaleAt env fuel (runH fuel [(env, .api (.load key)), (env, .hotReload)] x) ⟨0, "q"⟩ ∧
+      ¬ Settled env fuel (runH fuel [(env, .api (.load key)), (env, .hotReload)] x).1
+          (runH fuel [(env, .api (.load key)), (env, .hotReload)] x).2.graph := by
+  have hq : HistP (StepOKC cxEnv 10) cxEnv 10 [(cxEnv, .api (.load ⟨0, "q"⟩))] ({}, {}) :=
+    .cons _ _ _ (StepOKC.load (loadOKC_of_check (by decide))) (.nil _)
+  have hinv := (histC_settled cxEnv_steady hq (SInvC.init cxEnv 10)).1
+  have hst : StaleAt cxEnv 10 (runH 10 [(cxEnv, .api (.load ⟨0, "x"⟩)), (cxEnv, .hotReload)]
+      (runH 10 [(cxEnv, .api (.load ⟨0, "q"⟩))] ({}, {}))) ⟨0, "q"⟩ := staleAt_of_check (by decide)
+  exact ⟨cxEnv, 10, runH 10 [(cxEnv, .api (.load ⟨0, "q"⟩))] ({}, {}), ⟨0, "x"⟩, cxEnv_steady, hinv, by decide,
+    noProbedKeyFilled_of_check (by decide),
+    fun h => absurd (noLivePendingKeyFilled_check_of h) (by decide), hst, hst.not_settled⟩
+
+/-- **The part of `NoDependentOnC` on the channel is necessary**: `load b` (which loads `e`), the two
+registrations still in the channel, `remove e`: the graph is empty, so nothing REGISTERED depends on `e`
+— but the pending registration of the cached `b` lists it. After `hot_reload()` re-evaluating `b` misses
+`e`: it is not a tracked hit-only run, `b` is not settled. -/
+theorem C05_remove_pending_breaks_settled :
+    ∃ (env : Env) (fuel : Nat) (x : St × RSt) (key : Key),
+      env.Steady ∧ SInvC env fuel x ∧
+      (∀ k node c, x.2.graph.get (.asset k) = some node → node.typed = true → x.1.lookup k = some c → c.dyn = true →
+        k ≠ key → Dep.asset key ∉ node.deps) ∧
+      ¬ NoDependentOnC x.1 x.2.graph key ∧
+      ¬ Settled env fuel (runH fuel [(env, .api (.remove key)), (env, .hotReload)] x).1
+          (runH fuel [(env, .api (.remove key)), (env, .hotReload)] x).2.graph := by
+  have hb : HistP (StepOKC (exEnv [1, 0] [10]) 10) (exEnv [1, 0] [10]) 10 [(exEnv [1, 0] [10], .api (.load kb))] ({}, {}) :=
+    .cons _ _ _ (StepOKC.load (loadOKC_of_check (by decide))) (.nil _)
+  have hinv := (histC_settled (exEnv_steady _ _) hb (SInvC.init _ 10)).1
+  have hbad : ¬ Settled (exEnv [1, 0] [10]) 10
+      (runH 10 [(exEnv [1, 0] [10], .api (.remove ke)), (exEnv [1, 0] [10], .hotReload)]
+        (runH 10 [(exEnv [1, 0] [10], .api (.load kb))] ({}, {}))).1
+      (runH 10 [(exEnv [1, 0] [10], .api (.remove ke)), (exEnv [1, 0] [10], .hotReload)]
+        (runH 10 [(exEnv [1, 0] [10], .api (.load kb))] ({}, {}))).2.graph :=
+    not_settled_of_miss (k := kb) (by decide)
+  refine ⟨exEnv [1, 0] [10], 10, runH 10 [(exEnv [1, 0] [10], .api (.load kb))] ({}, {}), ke, exEnv_steady _ _, hinv,
+    fun k node c hg => (by cases hg), ?_, hbad⟩
+  intro hdep
+  have hh : HistP (StepOKC (exEnv [1, 0] [10]) 10) (exEnv [1, 0] [10]) 10
+      [(exEnv [1, 0] [10], .api (.remove ke)), (exEnv [1, 0] [10], .hotReload)]
+      (runH 10 [(exEnv [1, 0] [10], .api (.load kb))] ({}, {})) :=
+    .cons _ _ _ (Or.inr hdep) (.cons _ _ _ (StepOK.of_idle rfl (by decide)).toC (.nil _))
+  exact hbad ((histC_settled (exEnv_steady _ _) hh hinv).2 [(exEnv [1, 0] [10], .api (.remove ke))] .hotReload [] rfl rfl).1
+
+/-! ## Histories with `load_owned` (`Lemmas/HistMore.lean`)
+
+`load_owned(key)` from the API runs the loader of `key` under its own frame and registers `key` with what
+the frame recorded, but caches nothing for `key` (`step_loadOwned_facts`): the graph gets a typed node for
+a key that is not cached — skipped by `reload`, and `Settled` does not speak of it (`MsgGoodIf` holds
+vacuously). The assets the owned load cached ON THE WAY are registered by good messages as for a load
+(`clean_out` on the body). -/
+
+/-- **Histories with `clear` and `load_owned`** (partial): `C05_history_with_clear_partial` extended with
+`.api (.loadOwned key)` steps. Every step satisfies `StepOKO` in the state it starts from: `StepOKC`
+(see `C05_history_with_clear_partial`), and a `load_owned` from the API satisfies `LoadOwnedOK`:
+* `clean` — `CleanLoadOwned`: the type of `key` is hot-reloaded (and the cache has a reloader), and the
+  body of the loader runs clean (`cleanRun` relative to the cache the call ends in: nested `load`s, misses
+  included, recursively; no absorbed failure; no `get_cached` probe of a key that is cached before the call
+  returns) — the hypothesis `CleanLoad` of a load, on the body;
+* `noFill`, `noFillLive` — `NoProbedKeyFilled`, `NoLivePendingKeyFilled` for the keys the owned load caches
+  on the way; necessary (`C05_load_owned_false_fill`).
+No hypothesis on the result (value, error, panic, exhausted fuel), none on whether `key` is cached: when it
+is (`load a; load_owned a`), the owned load returns the cached value and registers `a` with the same
+dependencies (`C05_load_owned_cached_agrees`) — that needs the invariant to know every cached dynamic entry
+(`Reg`, carried by `SInvC`; `Settled` alone is not inductive here: `C05_load_owned_needs_registered`).
+NOT covered: `load_owned` NESTED in a loader. That is not a gap of the proof: `hitRun` rejects `.loadOwned`,
+so an asset whose loader takes that path is never `Settled`, whatever the history
+(`C05_nested_load_owned_never_settled`, `C05_nested_load_owned_example`); `cleanRun` rejects it accordingly.
+
+Conclusion: the one of `C05_static_history_partial`, after EVERY reloader step. -/
+theorem C05_history_with_load_owned_partial (env : Env) (hS : env.Steady) (fuel : Nat) (h : List (Env × HOp))
+    (hh : HistP (StepOKO env fuel) env fuel h ({}, {})) :
+    ∀ h1 op h2, h = h1 ++ (env, op) :: h2 → op.isReloader = true →
+      Settled env fuel (runH fuel (h1 ++ [(env, op)]) ({}, {})).1 (runH fuel (h1 ++ [(env, op)]) ({}, {})).2.graph ∧
+      GraphOK (runH fuel (h1 ++ [(env, op)]) ({}, {})).2.graph ∧
+      (runH fuel (h1 ++ [(env, op)]) ({}, {})).1.out = [] ∧
+      (runH fuel (h1 ++ [(env, op)]) ({}, {})).2.dead = false ∧
+      ((runH fuel (h1 ++ [(env, op)]) ({}, {})).2.static_ = true →
+        (runH fuel (h1 ++ [(env, op)]) ({}, {})).2.toReload = []) ∧
+      (op = .enhance → (runH fuel (h1 ++ [(env, op)]) ({}, {})).2.static_ = true) :=
+  C05_history_conclusion env hS fuel (fun _ op hx hok => hx.stepO hS op hok) (fun _ _ hop hok => hok.pass hop) h hh
+
+/-- `C05_history_with_load_owned_partial` contains `C05_history_with_clear_partial` -/
+theorem C05_history_with_load_owned_extends (env : Env) (fuel : Nat) (h : List (Env × HOp)) (x : St × RSt)
+    (hh : HistP (StepOKC env fuel) env fuel h x) : HistP (StepOKO env fuel) env fuel h x :=
+  hh.mono (fun _ _ => StepOKC.toO)
+
+/-- **What `load_owned` from the API does to the cache and the channel** (hot type, reloader): nothing is
+cached for `key` by the call itself — the cache is the one the loader body ended in —, and `key` is
+registered with what the body recorded when the body returned a value. -/
+theorem C05_load_owned_registers_uncached (env : Env) (f : Nat) (s : St) (key : Key)
+    (hb : recordsAsset (env.types key.ty).hot env.hasReloader = true) :
+    (∀ k, (step env (f + 1) s (.loadOwned key)).1.lookup k = (ownedBody env (f + 1) s key).1.lookup k) ∧
+    (step env (f + 1) s (.loadOwned key)).1.out = (ownedBody env (f + 1) s key).1.out ++
+      (match (ownedBody env (f + 1) s key).2 with
+       | .ok _ => [.addAsset key (ownedBody env (f + 1) s key).1.top]
+       | _ => []) :=
+  step_loadOwned_facts env f s key hb
+
+/-! ### Non-vacuity -/
+
+/-- `load_owned b` (loads and caches `e` on the way; registers `b`, which is NOT cached), `hot_reload()`,
+`load b`, `load_owned b` (now `b` is cached: the owned load returns the cached value), `clear`,
+`load_owned b` again, `hot_reload()` -/
+def exOwnedHistory : List (Env × HOp) :=
+  [(exEnv [1, 0] [10], .api (.loadOwned kb)), (exEnv [1, 0] [10], .hotReload),
+   (exEnv [1, 0] [10], .api (.load kb)), (exEnv [1, 0] [10], .api (.loadOwned kb)),
+   (exEnv [1, 0] [10], .api .clear), (exEnv [1, 0] [10], .api (.loadOwned kb)), (exEnv [1, 0] [10], .hotReload)]
+
+theorem exOwnedHistory_ok : HistP (StepOKO (exEnv [1, 0] [10]) 10) (exEnv [1, 0] [10]) 10 exOwnedHistory ({}, {}) :=
+  .cons _ _ _ (StepOKO.loadOwned (loadOwnedOK_of_check (by decide)))
+    (.cons _ _ _ (StepOK.of_idle rfl (by decide)).toC.toO
+      (.cons _ _ _ (StepOKC.load (loadOKC_of_check (by decide))).toO
+        (.cons _ _ _ (StepOKO.loadOwned (loadOwnedOK_of_check (by decide)))
+          (.cons _ _ _ StepOKC.clear.toO
+            (.cons _ _ _ (StepOKO.loadOwned (loadOwnedOK_of_check (by decide)))
+              (.cons _ _ _ (StepOK.of_idle rfl (by decide)).toC.toO (.nil _)))))))
+
+/-- **Non-vacuity** of `C05_history_with_load_owned_partial`: settled after both `hot_reload()`s -/
+example :
+    Settled (exEnv [1, 0] [10]) 10 (runH 10 (exOwnedHistory.take 2) ({}, {})).1 (runH 10 (exOwnedHistory.take 2) ({}, {})).2.graph ∧
+    Settled (exEnv [1, 0] [10]) 10 (runH 10 exOwnedHistory ({}, {})).1 (runH 10 exOwnedHistory ({}, {})).2.graph :=
+  ⟨(C05_history_with_load_owned_partial (exEnv [1, 0] [10]) (exEnv_steady _ _) 10 exOwnedHistory exOwnedHistory_ok
+      [(exEnv [1, 0] [10], .api (.loadOwned kb))] .hotReload _ rfl rfl).1,
+   (C05_history_with_load_owned_partial (exEnv [1, 0] [10]) (exEnv_steady _ _) 10 exOwnedHistory exOwnedHistory_ok
+      [(exEnv [1, 0] [10], .api (.loadOwned kb)), (exEnv [1, 0] [10], .hotReload),
+       (exEnv [1, 0] [10], .api (.load kb)), (exEnv [1, 0] [10], .api (.loadOwned kb)),
+       (exEnv [1, 0] [10], .api .clear), (exEnv [1, 0] [10], .api (.loadOwned kb))] .hotReload [] rfl rfl).1⟩
+
+/-- what happens in that history: the first `load_owned b` returns `11`, caches `e` but not `b`, and sends
+the registrations of `e` and of `b`; after the `hot_reload()` the graph has a typed node for the uncached `b`;
+the second `load_owned b` (with `b` cached) returns the cached `11` and registers `b` again -/
+example :
+    (step (exEnv [1, 0] [10]) 10 {} (.loadOwned kb)).2 = .value (.int 11) ∧
+    (runH 10 (exOwnedHistory.take 1) ({}, {})).1.lookup kb = none ∧
+    (runH 10 (exOwnedHistory.take 1) ({}, {})).1.lookup ke = some ⟨.int 10, true, 0, false, 0⟩ ∧
+    (runH 10 (exOwnedHistory.take 1) ({}, {})).1.out =
+      [.addAsset ke [.file "e" "s"], .addAsset kb [.file "b" "s", .asset ke]] ∧
+    ((runH 10 (exOwnedHistory.take 2) ({}, {})).2.graph.get (.asset kb)).map (·.typed) = some true ∧
+    (runH 10 (exOwnedHistory.take 2) ({}, {})).1.lookup kb = none ∧
+    (step (exEnv [1, 0] [10]) 10 (runH 10 (exOwnedHistory.take 3) ({}, {})).1 (.loadOwned kb)).2 = .value (.int 11) ∧
+    (runH 10 (exOwnedHistory.take 4) ({}, {})).1.out.length = 2 := by decide
+
+/-! ### The hypotheses on a `load_owned` are necessary; nested `load_owned` -/
+
+/-- **A `load_owned` of a cached key returns the cached value** in every state of the invariant: the key
+is registered or has a registration in the channel (`Reg`), so re-evaluating its loader is a tracked
+hit-only run that returns what the entry holds (`Settled` / `LastGood`), and the owned load is that run. -/
+theorem C05_load_owned_cached_agrees (env : Env) (fuel : Nat) (x : St × RSt) (key : Key) (hx : SInvC env fuel x) :
+    OwnedAgrees env fuel x.1 key :=
+  OwnedAgrees.of_known hx.pending (fun c hc hd => hx.pending.reg key c hc hd)
+
+/-- **Why the invariant carries `Reg`** (every cached dynamic entry is registered or has a registration in
+the channel): `Settled`, a drained channel, an exact index, a live reloader are NOT enough for `load_owned`.
+A state with nothing registered (`Settled` holds vacuously) in which `x` is cached with `99` although its
+loader returns `0`: `load_owned x` is a clean owned load that fills nothing — it returns `0` and REGISTERS
+`x`. After `hot_reload()` `x` is registered, cached, and holds `99`. (Such a state is not reachable: a dynamic
+entry is created by a load that misses, which registers it.) -/
+theorem C05_load_owned_needs_registered :
+    ∃ (env : Env) (fuel : Nat) (x : St × RSt) (key : Key),
+      env.Steady ∧ x.1.out = [] ∧ Settled env fuel x.1 x.2.graph ∧ GraphOK x.2.graph ∧ x.2.dead = false ∧
+      LoadOwnedOK env fuel x.1 x.2 key ∧
+      ¬ Reg x.1 x.2.graph ∧ ¬ OwnedAgrees env fuel x.1 key ∧
+      StaleAt env fuel (runH fuel [(env, .api (.loadOwned key)), (env, .hotReload)] x) key ∧
+      ¬ Settled env fuel (runH fuel [(env, .api (.loadOwned key)), (env, .hotReload)] x).1
+          (runH fuel [(env, .api (.loadOwned key)), (env, .hotReload)] x).2.graph := by
+  have hst : StaleAt cxEnv 10 (runH 10 [(cxEnv, .api (.loadOwned ⟨0, "x"⟩)), (cxEnv, .hotReload)]
+      ({ map := [(⟨0, "x"⟩, ⟨.int 99, true, 0, false, 0⟩)], next := 1 }, {})) ⟨0, "x"⟩ := staleAt_of_check (by decide)
+  refine ⟨cxEnv, 10, ({ map := [(⟨0, "x"⟩, ⟨.int 99, true, 0, false, 0⟩)], next := 1 }, {}), ⟨0, "x"⟩, cxEnv_steady, rfl,
+    settled_nil _ _ _, graphOK_nil, rfl, loadOwnedOK_of_check (by decide), ?_,
+    fun h => absurd (ownedAgrees_check_of h) (by decide), hst, hst.not_settled⟩
+  intro hreg
+  rcases hreg ⟨0, "x"⟩ ⟨.int 99, true, 0, false, 0⟩ (by decide) rfl with ⟨node, hg, _⟩ | ⟨D, hm⟩
+  · cases hg
+  · cases hm
+
+/-- **`NoProbedKeyFilled` is necessary for `load_owned` too** (for the keys it caches on the way): `load r`
+(it probes `x`, finds nothing, returns `1`), `hot_reload()`: everything is settled. `load_owned w`: a clean
+owned load of a key that is not cached — whose loader loads `x`: it fills the key `r` probed. Re-evaluating
+`r` returns `2` now; `r` holds `1`. -/
+theorem C05_load_owned_false_fill :
+    ∃ (env : Env) (fuel : Nat) (x : St × RSt) (key : Key),
+      env.Steady ∧ SInvC env fuel x ∧ CleanLoadOwned env fuel x.1 key ∧
+      NoLivePendingKeyFilled x.1 (step env fuel x.1 (.loadOwned key)).1 ∧
+      ¬ NoProbedKeyFilled x.1 (step env fuel x.1 (.loadOwned key)).1 x.2.graph ∧
+      StaleAt env fuel (runH fuel [(env, .api (.loadOwned key)), (env, .hotReload)] x) kr ∧
+      ¬ Settled env fuel (runH fuel [(env, .api (.loadOwned key)), (env, .hotReload)] x).1
+          (runH fuel [(env, .api (.loadOwned key)), (env, .hotReload)] x).2.graph := by
+  have hr : HistP (StepOKO lwEnv 10) lwEnv 10 [(lwEnv, .api (.load kr)), (lwEnv, .hotReload)] ({}, {}) :=
+    .cons _ _ _ (StepOKC.load (loadOKC_of_check (by decide))).toO
+      (.cons _ _ _ (StepOK.of_idle rfl (by decide)).toC.toO (.nil _))
+  have hinv := (histO_settled lwEnv_steady hr (SInvC.init lwEnv 10)).1
+  have hst : StaleAt lwEnv 10 (runH 10 [(lwEnv, .api (.loadOwned ⟨0, "w"⟩)), (lwEnv, .hotReload)]
+      (runH 10 [(lwEnv, .api (.load kr)), (lwEnv, .hotReload)] ({}, {}))) kr := staleAt_of_check (by decide)
+  refine ⟨lwEnv, 10, runH 10 [(lwEnv, .api (.load kr)), (lwEnv, .hotReload)] ({}, {}), ⟨0, "w"⟩, lwEnv_steady, hinv,
+    ⟨by decide, by decide⟩, noLivePendingKeyFilled_of_check (by decide), ?_, hst, hst.not_settled⟩
+  intro hfill
+  have hh : HistP (StepOKO lwEnv 10) lwEnv 10 [(lwEnv, .api (.loadOwned ⟨0, "w"⟩)), (lwEnv, .hotReload)]
+      (runH 10 [(lwEnv, .api (.load kr)), (lwEnv, .hotReload)] ({}, {})) :=
+    .cons _ _ _ (StepOKO.loadOwned ⟨⟨by decide, by decide⟩, hfill, noLivePendingKeyFilled_of_check (by decide)⟩)
+      (.cons _ _ _ (StepOK.of_idle rfl (by decide)).toC.toO (.nil _))
+  exact hst.not_settled
+    ((histO_settled lwEnv_steady hh hinv).2 [(lwEnv, .api (.loadOwned ⟨0, "w"⟩))] .hotReload [] rfl rfl).1
+
+/-- **A `load_owned` nested in a loader is outside `Settled` by definition**: re-evaluating a loader that
+starts with `load_owned` is never a tracked hit-only run (`hitRun` rejects `.loadOwned`: the parent records
+`asset key`, but the value comes from re-running the child's loader, not from the cache) — so such an asset,
+once registered and cached with a dynamic cell, is not settled, whatever the history. -/
+theorem C05_nested_load_owned_never_settled (env : Env) (fuel : Nat) (s : St) (g : Graph) (key k0 : Key)
+    (k : Except LErr Val → Prog) (node : GNode) (c : Cell)
+    (hprog : (env.types key.ty).prog key.id = .loadOwned k0 k)
+    (hg : g.get (.asset key) = some node) (ht : node.typed = true) (hc : s.lookup key = some c) (hd : c.dyn = true) :
+    reloadHit env (fuel + 1) s key = false ∧ ¬ Settled env (fuel + 1) s g := by
+  have h : reloadHit env (fuel + 1) s key = false := by
+    unfold reloadHit
+    rw [hprog]
+    rfl
+  refine ⟨h, fun hs => ?_⟩
+  have := (hs key node c hg ht hc hd).hit
+  rw [h] at this
+  cases this
+
+/-- … concretely: `load o` (the loader of `o` calls `load_owned x`) returns a handle, `o` is cached and
+registered with the dependency `x`; it is not a clean load, and after `hot_reload()` `o` is not settled. -/
+theorem C05_nested_load_owned_example :
+    (step lwEnv 10 {} (.load ⟨0, "o"⟩)).2 = .handle 0 (.int 4) ∧
+    ¬ CleanLoad lwEnv 10 {} ⟨0, "o"⟩ ∧
+    (runH 10 [(lwEnv, .api (.load ⟨0, "o"⟩)), (lwEnv, .hotReload)] ({}, {})).1.lookup kx = none ∧
+    ((runH 10 [(lwEnv, .api (.load ⟨0, "o"⟩)), (lwEnv, .hotReload)] ({}, {})).2.graph.get (.asset ⟨0, "o"⟩)).map (·.deps) =
+      some [.asset kx] ∧
+    ¬ Settled lwEnv 10 (runH 10 [(lwEnv, .api (.load ⟨0, "o"⟩)), (lwEnv, .hotReload)] ({}, {})).1
+        (runH 10 [(lwEnv, .api (.load ⟨0, "o"⟩)), (lwEnv, .hotReload)] ({}, {})).2.graph :=
+  ⟨by decide, by decide, by decide, by decide,
+   not_settled_of_miss (x := runH 10 [(lwEnv, .api (.load ⟨0, "o"⟩)), (lwEnv, .hotReload)] ({}, {})) (k := ⟨0, "o"⟩)
+     (by decide)⟩
 
 end AmVerif.Props.C05
